@@ -448,7 +448,7 @@ fn build_server(net: &crate::sim::NetRef) -> h3::server::Connection<SimConn, Byt
     let mut b = h3::server::builder();
     b.send_grease(false);
     let mut f: Pin<Box<dyn Future<Output = _>>> = Box::pin(b.build::<_, Bytes>(SimConn { net: net.clone() }));
-    match crate::sim::poll_once(&mut f) {
+    match crate::sim::poll_settled(&mut f) {
         Poll::Ready(r) => r.expect("server build"),
         Poll::Pending => panic!("server build pending"),
     }
@@ -516,7 +516,7 @@ fn build_client(net: &crate::sim::NetRef) -> (h3::client::Connection<SimConn, By
     b.send_grease(false);
     let mut f: Pin<Box<dyn Future<Output = _>>> =
         Box::pin(b.build::<SimConn, crate::sim::SimOpen, Bytes>(SimConn { net: net.clone() }));
-    match crate::sim::poll_once(&mut f) {
+    match crate::sim::poll_settled(&mut f) {
         Poll::Ready(r) => r.expect("client build"),
         Poll::Pending => panic!("client build pending"),
     }
